@@ -3,7 +3,7 @@
    breaks, say, resynchronisation without introducing a panic does not disturb this file. *)
 From Coq Require Import NArith Bool List String.
 From PK Require Import Base.Outcome Base.Ctl Base.Finite Base.Machine Base.Reach Gen.All Impl Spec.Frame Spec.Event
-  Syn.Ps2 Syn.Set1 Syn.Set2 Syn.Lay Syn.Preds Syn.Ev Check.Scan Check.Ps2M Check.C07 Check.Lay Check.Ev Check.C08.
+  Syn.Ps2 Syn.Set1 Syn.Set2 Syn.Lay Syn.Preds Check.Scan Check.Ps2M Check.C07 Check.Lay Check.Ev Check.C08.
 Import ListNotations.
 Local Open Scope N_scope.
 
@@ -48,22 +48,24 @@ Qed.
 Section AnyLayout.
   Context {L : Type} (f : L -> KeyCode -> Modifiers -> HandleControl -> outcome DecodedKey).
   Hypothesis Hf : forall l k m hc, f l k m hc <> Panic.
+  (* shape-tolerant: unfold everything, split on every variable scrutinee (a modifier flag, a hidden field)
+     and on every call of the layout, which does not panic by hypothesis; no field of the record is named *)
+  Ltac split_all :=
+    repeat match goal with
+           | |- context [match f ?a ?b ?c ?d with _ => _ end] =>
+               let H := fresh in pose proof (Hf a b c d) as H; destruct (f a b c d); [|congruence]
+           | |- context [if ?c then _ else _] => destruct c
+           | |- context [match ?x with _ => _ end] => is_var x; destruct x
+           | |- context [if ?x then _ else _] => is_var x; destruct x
+           end.
   Theorem C08_process : forall (d : EventDecoder L) ev, EventDecoder_process_keyevent f d ev <> Panic.
-  Proof.
-    intros [hc m lay] [k s].
-    destruct k, s; try discriminate;
-      cbv [EventDecoder_process_keyevent run_mut cbind cget cput cret call call_mut
-           EventDecoder_modifiers EventDecoder_handle_ctrl EventDecoder_layout EventDecoder_set_modifiers];
-      try (pose proof (Hf lay) as Hl; match goal with |- context [f lay ?k m hc] => specialize (Hl k m hc); destruct (f lay k m hc) end;
-           [discriminate | congruence]);
-      destruct m as [? ? ? ? ? ? ? ? []]; discriminate.
-  Qed.
+  Proof. intros d [k s]. destruct d. timeout 300 (destruct k, s; cbv -[N.eqb N.ltb N.leb N.add N.sub N.mul N.div N.modulo N.lor N.land N.lxor N.shiftl N.shiftr N.b2n N.testbit]; split_all; discriminate). Qed.
   Theorem C08_set_ctrl_handling : forall (d : EventDecoder L) hc, EventDecoder_set_ctrl_handling f d hc <> Panic.
-  Proof. intros [hc0 m lay] hc. discriminate. Qed.
+  Proof. intros d hc. destruct d. cbv -[N.eqb N.ltb N.leb N.add N.sub N.mul N.div N.modulo N.lor N.land N.lxor N.shiftl N.shiftr N.b2n N.testbit]. split_all; discriminate. Qed.
   Theorem C08_change_layout : forall (d : EventDecoder L) l, EventDecoder_change_layout f d l <> Panic.
-  Proof. intros [hc0 m lay] l. discriminate. Qed.
+  Proof. intros d l. destruct d. cbv -[N.eqb N.ltb N.leb N.add N.sub N.mul N.div N.modulo N.lor N.land N.lxor N.shiftl N.shiftr N.b2n N.testbit]. split_all; discriminate. Qed.
   Theorem C08_new : forall l hc, EventDecoder_new f l hc <> Panic.
-  Proof. discriminate. Qed.
+  Proof. intros l hc. cbv. discriminate. Qed.
 End AnyLayout.
 
 (* every key, modifier set and mode to every layout, through all three forms; results are valid scalars *)
